@@ -281,7 +281,9 @@ func (vc *VC) define(hint string, s Sort, term string) string {
 		return term
 	}
 	n := vc.fresh(hint)
-	vc.lines = append(vc.lines, fmt.Sprintf("(define-fun %s () %s %s)", n, s, term))
+	// declare + equation rather than define-fun: solvers expand define-fun macros
+	// inside quantifier triggers, which then contain ite/and and are rejected
+	vc.lines = append(vc.lines, fmt.Sprintf("(declare-const %s %s)", n, s), fmt.Sprintf("(assert (= %s %s))", n, term))
 	return n
 }
 
@@ -345,8 +347,34 @@ func (vc *VC) compAt(c string, s Sort, epoch int) string {
 	if !vc.declared[name] {
 		vc.declared[name] = true
 		vc.header = append(vc.header, fmt.Sprintf("(declare-const %s %s)", name, s))
+		if epoch == 0 {
+			if inv := heapInv(name, s, "|alloc@0|"); inv != "" {
+				vc.header = append(vc.header, "(assert "+inv+")")
+			}
+		}
 	}
 	return name
+}
+
+// heapInv is the well-formedness invariant of a freshly introduced heap value
+// holding slices: every stored slice header is well formed and allocated.
+func heapInv(term string, s Sort, alloc string) string {
+	switch s {
+	case "(Array Int Slice)":
+		return fmt.Sprintf("(forall ((r!h Int)) (! (and (wf-slice (select %s r!h)) (<= (s-arr (select %s r!h)) %s)) :pattern ((select %s r!h))))", term, term, alloc, term)
+	case "(Array Int (Array Int Slice))":
+		return fmt.Sprintf("(forall ((r!h Int) (j!h Int)) (! (and (wf-slice (select (select %s r!h) j!h)) (<= (s-arr (select (select %s r!h) j!h)) %s)) :pattern ((select (select %s r!h) j!h))))", term, term, alloc, term)
+	}
+	return ""
+}
+
+// declareHeap declares an unconstrained heap value (havoc) with its well-formedness invariant.
+func (vc *VC) declareHeap(hint string, s Sort, alloc string) string {
+	n := vc.declare(hint, s)
+	if inv := heapInv(n, s, alloc); inv != "" {
+		vc.lines = append(vc.lines, "(assert "+inv+")")
+	}
+	return n
 }
 
 func (vc *VC) setComp(m *Mem, c string, s Sort, term string) {
